@@ -159,6 +159,14 @@ func init() {
 				}})
 			}
 			us = append(us, core.Unit{Name: "zero-and-zones", Cost: 1, Run: func(c *core.Ctx) {
+				// the same instants held in locations east and west of UTC (the instant, not the wall clock, is carried)
+				for _, base := range []time.Time{time.Date(1, 1, 1, 0, 30, 0, 0, time.UTC), time.Date(9999, 12, 31, 23, 30, 0, 0, time.UTC), time.Date(9999, 12, 31, 10, 0, 0, 1000000, time.UTC),
+					time.Unix(0, 0).UTC(), time.Date(2038, 1, 19, 3, 14, 7, 0, time.UTC), time.Date(1969, 12, 31, 23, 59, 59, 999000000, time.UTC)} {
+					for off := -12 * 3600; off <= 14*3600; off += 1800 {
+						checkTime(c, base.In(time.FixedZone("Z", off)), off%7200 == 0)
+					}
+				}
+				checkTime(c, time.Time{}.In(time.FixedZone("E", 3600)), true)
 				checkTime(c, time.Time{}, true)
 				checkTime(c, time.Date(2020, 1, 2, 3, 4, 5, 678000000, time.FixedZone("X", -7*3600)), true)
 				checkTime(c, time.Date(1950, 1, 2, 3, 4, 5, 0, time.FixedZone("Y", 5*3600+1800)), true)
